@@ -175,6 +175,9 @@ class Gen:
     # ---- histories ------------------------------------------------------------
     def history(self, n_ops=40, profile="mixed", extra=None, seed=None):
         r = self.r
+        if extra is None and profile == "family":
+            # parents with children: the BTS side with one or two child transceivers, sometimes the MS side too
+            extra = ["a:5700/%d" % k for k in r.sample([1, 2, 3], r.choice([1, 2]))] + (["b:6700/1"] if r.random() < 0.4 else [])
         extra = self.config() if extra is None else extra
         nt = self.n_trx(extra)
         ops = []
@@ -264,6 +267,7 @@ class Gen:
             n_ops = 0
         weights = {
             "revisit": (0.30, 0.30, 0.36, 0.04),
+            "family": (0.40, 0.32, 0.27, 0.01),
             "mixed": (0.30, 0.30, 0.36, 0.04),
             "ctrl": (0.85, 0.05, 0.08, 0.02),
             "traffic": (0.10, 0.42, 0.45, 0.03),
@@ -277,7 +281,10 @@ class Gen:
             k = r.random()
             i = r.randrange(nt)
             if k < weights[0]:
-                if profile == "power":
+                if profile == "family":
+                    # power commands to parents and children in any order, while bursts are waiting in the queues
+                    C(i, "CMD %s\0" % r.choice(["POWERON", "POWERON", "POWEROFF"]))
+                elif profile == "power":
                     v = r.choice(["POWERON", "POWEROFF", "POWERON", "RXTUNE", "TXTUNE", "SETFH", None])
                     txt = self.cmd_text(v, dict(VERBS).get(v, 0) if v else None) if v else self.cmd_text()
                     C(i, txt)
@@ -319,6 +326,8 @@ class Gen:
                 d = r.choice([0, 0, 1, 1, 2, 2, 3, 5, -1, -2, 10, 1000, H // 2 - 1, H // 2, H // 2 + 1, -H // 2])
                 if profile in ("drop", "radio"):
                     d = r.choice([0, 1, 1, 1, 2, 2, 3])
+                if profile == "family":
+                    d = r.choice([1, 2, 2, 3, 3, 5, 8])
                 fn = (base + d) % H if (r.random() < 0.97 or self.clean) else r.choice([H, H + 1, 2 ** 32 - 1])
                 v = ver[i] if r.random() < 0.9 else 1 - ver[i]
                 ops.append("D %d %s" % (i, hx(self.tx_dgram(fn, v, 0.3 if profile == "fuzz" else 0.06))))
